@@ -102,7 +102,16 @@ def r1_parse_sites(cx):
                     msg = "raw cut (%s) produces a Reader/ByteStream, which cannot parse_in: block_check is the constant None (%s)" % (nm, sorted(v))
                 cx.ob("R1", "R1/cut_source@%s" % f["name"], ok, f, msg, ln=t.get("ln"))
             if call_is(t, r"Source>::cut$") and not f.get("impl_trait", "").endswith("Source"):
-                cx.ob("R1", "R1/Source.cut-caller@%s" % f["name"], f["name"].endswith("Reader::cut_source"), f, "Source::cut is only called from Reader::cut_source", ln=t.get("ln"))
+                # the raw cut of a source is a private matter of the reader layer: called from `Reader`'s own methods only,
+                # with block_check = None (plain views) or the caller's own block_check parameter (cut_source / cut_check)
+                b = b or F.body(f)
+                own = F.effective_owner(f)
+                v = enum_arg(b, t["args"][2])
+                forwards = bool(v) and all(x.startswith("param:") for x in v)
+                in_reader = (own.get("impl_self") or "").endswith("bases::reader::Reader")
+                okc = in_reader and ((forwards and re.search(r"::(cut_source|cut_check)$", own["name"])) or v == {"None"})
+                cx.ob("R1", "R1/Source.cut-caller@%s" % own["name"], bool(okc), f,
+                      "Source::cut is called only by the reader layer (Reader::cut_source or a method of Reader), with None or the forwarded block_check (%s)" % sorted(v), ln=t.get("ln"))
     # get_slice(.., BlockCheck::X) outside Source impls: Crc32 never needed there; None only on verified / raw-content receivers
     for f in F.live_fns:
         if "blocks" not in f or f.get("impl_trait", "").endswith("io::Source"):
